@@ -14,7 +14,8 @@ RULE = ('70% E1 histories (pure scheduler API) and 30% E2 histories (Master + Zk
         'while another was displaced in the same cycle (eviction/restore '
         'path) or a placed instance had its allocation changed. distinct = '
         'distinct canonical JSON.'
-        ' Since rounds 5-7: frozen loaded servers under pressure, allocation moves of instances sitting on frozen/down servers, two self-detected (unpublished) traits that may first appear in one server record.')
+        ' Since rounds 5-7: frozen loaded servers under pressure, allocation moves of instances sitting on frozen/down servers, two self-detected (unpublished) traits that may first appear in one server record.'
+        ' Since round 8: allocations may require traits that nodes detect themselves (never published in /traits).')
 ASSUMPTIONS = [
     'virtual clock replaces treadmill.scheduler.time',
     'the partition of an instance is the partition of the allocation it was '
